@@ -39,6 +39,8 @@ import warnings
 
 import numpy as np
 
+from phonopy.structure.cells import determinant
+
 
 def fracval(frac):
     """Return floating point value from rational."""
@@ -731,7 +733,7 @@ class ConfParser:
                     )
 
                 if matrix.shape == (3, 3):
-                    if np.linalg.det(matrix) < 1:
+                    if determinant(matrix) < 1:
                         self.setting_error(
                             "Determinant of supercell matrix has to be positive."
                         )
